@@ -847,6 +847,66 @@ impl<S: IdxSetLike, H: Holder<S>> Real for IdxSetReal<S, H> {
 }
 
 // ------------------------------------------------------------------------------------------------
+// cal shm_allocator::PoolAllocator seen as an index set (bucket index = offset / bucket size)
+
+type ShmPool = iceoryx2_cal::shm_allocator::pool_allocator::PoolAllocator;
+
+pub struct ShmPoolReal {
+    h: InBlock<ShmPool>,
+    cap: usize,
+    n: i64,
+}
+
+impl Real for ShmPoolReal {
+    fn supports(&self, a: &str) -> bool {
+        matches!(a, "acquire" | "release")
+    }
+    fn supports_edge(&self, a: &str, i: &[i64]) -> bool {
+        a != "release" || i[1] == 0 // the allocator has no lock-if-last mode
+    }
+    fn apply(&mut self, a: &str, i: &[i64], _s: &[i64]) -> Outcome {
+        use iceoryx2_bb_elementary_traits::allocator::{Allocate, Deallocate};
+        use iceoryx2_cal::shm_allocator::{PointerOffset, ShmAllocator};
+        let layout = core::alloc::Layout::from_size_align(16, 16).unwrap();
+        let x = Holder::obj(&mut self.h);
+        match a {
+            "acquire" => match unsafe { x.assume_init() }.allocate(layout) {
+                Ok(off) => {
+                    self.n += 1;
+                    out_v("ok", vec![(off.offset() / 16) as i64])
+                }
+                Err(_) => out("out_of_indices"),
+            },
+            "release" => {
+                unsafe { x.assume_init().deallocate(PointerOffset::new(i[0] as usize * 16), layout) };
+                self.n -= 1;
+                out("unlocked")
+            }
+            _ => unreachable!("shm pool action {a}"),
+        }
+    }
+    fn observe(&mut self) -> Result<Vec<i64>, String> {
+        Ok(vec![self.cap as i64, 0, self.n])
+    }
+    fn relocate(&mut self) -> bool {
+        Holder::relocate(&mut self.h)
+    }
+    fn fingerprint(&mut self) -> Option<u64> {
+        fingerprint(&[Holder::bytes(&mut self.h)])
+    }
+    fn image(&mut self) -> Option<Vec<Vec<u8>>> {
+        Some(vec![copy_region(Holder::bytes(&mut self.h))?, self.n.to_le_bytes().to_vec()])
+    }
+    fn adopt(&mut self, images: &[Vec<u8>]) -> bool {
+        if images.len() != 2 || images[1].len() != 8 || !Holder::overwrite(&mut self.h, &images[0]) {
+            return false;
+        }
+        self.n = i64::from_le_bytes(images[1][..8].try_into().unwrap());
+        true
+    }
+}
+
+// ------------------------------------------------------------------------------------------------
 // BitSet (sequential use)
 
 pub trait BitSetLike {
@@ -1057,6 +1117,7 @@ fn make_inner(kind: &str, flavour: &str, cap: usize, in_block: bool) -> Result<B
             macro_rules! m { ($n:literal) => { hold!(IdxSetReal, FixedSizeUniqueIndexSet::<$n>::new()) }; }
             by_cap!(cap, m)
         }
+        ("indexset", "shmpool") => boxed(ShmPoolReal { h: InBlock::<ShmPool>::new_shmpool(cap)?, cap, n: 0 }),
         ("indexset", "reloc") => boxed(IdxSetReal { h: InBlock::<UniqueIndexSet>::new_relocatable(cap)?, _p: PhantomData }),
 
         ("bitset", "heap") => boxed(BitSetReal { h: Own(BitSet::new(cap)), _p: PhantomData }),
